@@ -84,6 +84,8 @@ def jobs(tier, seed):
                 js.append({"id": f"e2e-{metric}-n{n}-{''.join(map(str, g))}", "kind": "e2e", "n": n, "groups": list(g), "metric": metric,
                            "yp": [rnd.randint(0, 1) for _ in range(n)], "cw": [rnd.randint(1, 4) for _ in range(n)],
                            "cp": [rnd.choice([0.0, 0.25, 0.5, 1.0, -1.0, 2.0]) for _ in range(n)]})
+    # the cheap end-to-end jobs first: the table jobs fill the rest of the budget (jobs past the deadline are skipped and reported)
+    js.sort(key=lambda j: j["kind"] != "e2e")
     return js
 
 
